@@ -76,7 +76,15 @@ class UserDeleteNode(ActionGroup):
             )
 
         # delete node
-        self.actions.append(DeleteNode(tracks, node, pixels=pixels))
+        try:
+            self.actions.append(DeleteNode(tracks, node, pixels=pixels))
+        except Exception:
+            # the deletion itself is refused (e.g. pixels given for tracks without a
+            # segmentation, or pixels outside the array): take back the edge and id
+            # changes made above, so that the refused action leaves the tracks unchanged
+            for action in reversed(self.actions):
+                action.inverse()
+            raise
 
         if _top_level:
             self.tracks.action_history.add_new_action(self)
